@@ -11,7 +11,7 @@ _STRS = ['a', 'b', 'c', 'd', 'e', 'f', 'g', 'aa', 'ab', 'B', 'x y', '', 'zz', 'c
          'u', 'v', 'w', 'x', 'y', 'z', 'k1', 'k2', 'k3', 'k4', 'k5', 'k6', 'k7', 'k8', 'k9']
 _FLOATS = [0.5, -1.5, 2.25, 1e10, 3.0, -0.25, 100.5, 7.75, 1.0, 2.0, 8.5, 9.5, 10.5, 11.5, 12.5, 13.5, 0.0, -2.0,
            4.0, 5.0, 6.0, 20.0, 21.0, 22.0, 23.5, 24.5, 25.5, 26.5, 27.5, 28.5, 29.5, 30.5, 31.5, 32.5, 33.5, 34.5]
-_MIXED = [1, 'a', 2.5, (1, 2), 'b', -3, ('x', 1), 10, 'c', 4.5, b'q', datetime.date(2020, 1, 1), 'd', 7, 8, 9,
+_MIXED = [1, 'a', 2.5, (1, 2), 'b', -3, ('x', 1), 10, 'c', 4.5, datetime.date(2020, 1, 1), 'd', 7, 8, 9,
           'e', 'f', 11, 12, 'g', 'h', 13, 14, 'i', 15, 'j', 16, 'k', 17, 'l', 18, 'm', 19, 'n']
 
 
